@@ -64,6 +64,21 @@ def real_elementwise(q, argorder, dt, extra_p=()):
             base = np.concatenate([base, [np.floor(pb), np.ceil(pb)]])
         if "Spivey" in q:
             base = base[base >= pb]
+        for order in ("given", "descending", "shuffled"):
+            r = _one(f, q, argorder, dt, base, order, (T_, api_, gg_, R_, S_))
+            if r is not None:
+                return r
+    return {"reproduced": False}
+
+
+def _one(f, q, argorder, dt, base, order, prm):
+    import numpy as np
+    T_, api_, gg_, R_, S_ = prm
+    if True:
+        if order == "descending":
+            base = np.sort(base)[::-1].copy()
+        elif order == "shuffled":
+            base = np.random.default_rng(0).permutation(base)
         arr = base.astype(NP_DT[dt])
         before = arr.copy()
         vals = {"T": T_, "api": api_, "gg": gg_, "R": R_, "S": S_}
@@ -78,7 +93,7 @@ def real_elementwise(q, argorder, dt, extra_p=()):
         if not ok:
             return {"reproduced": True, "input": {"function": q, "dtype": NP_DT[dt], "pressure": arr.tolist(), **vals}, "observed": {"values": got_a.astype(float).tolist(), "dtype": str(got_a.dtype)},
                     "required": {"values": want.tolist(), "dtype": "floating", "input": "unchanged"}}
-    return {"reproduced": False}
+    return None
 
 
 ARGORDER = {
